@@ -255,7 +255,7 @@ class Ctx:
             "rule": rule,
             "samples": self.samples[:8] if self.samples else [],
             "monitors": {k: int(v) for k, v in sorted(self.mon.items())},
-            "worst_residual_vs_tolerance": {k: {"worst": v, "tolerance": t} for k, (v, t) in sorted(self.worst.items())},
+            "worst_residual_vs_tolerance": {k: {"worst": jsonable(v), "tolerance": jsonable(t)} for k, (v, t) in sorted(self.worst.items())},
             "observations": self.obs,
             "known_findings_observed": {k: len(v) for k, v in knownhits.items()},
             "violation_classes": {k: len(v) for k, v in classes.items()},
@@ -286,7 +286,7 @@ class Ctx:
             os.makedirs(os.path.join(ROOT, "evidence"), exist_ok=True)
             p = os.path.join(ROOT, "evidence", f"{self.pid}.json")
             with open(p + ".tmp", "w") as f:
-                json.dump(ev, f, indent=1, sort_keys=False)
+                json.dump(ev, f, indent=1, sort_keys=False, allow_nan=False)
             os.replace(p + ".tmp", p)
         for ln in lines:
             print(ln)
